@@ -376,6 +376,62 @@ def rule_products_are_independent(rep, repo):
     raise AnalysisError("instance-count only %d factory sequences" % n)
 
 
+def rule_float_products(rep, repo):
+  """R12: floating-point operands.  The product type is floating point, as
+  wide as the widest floating-point operand (a product of an fp32 and an
+  fp16 value is not representable in fp16), whichever side it is on; a
+  fixed-point / po2 / binary operand does not widen or narrow it."""
+  mf = repo.module(MF)
+  qi = repo.module(ta.QI)
+  unit = "qkeras/qtools/quantized_operators/multiplier_impl.py::" \
+      "FloatingPointMultiplier"
+  rep.unit(unit)
+  loc = mf.loc(mf.classes["MultiplierFactory"].node)
+  n = 0
+  cases = [((("float", bw), ("float", bx)), max(bw, bx))
+           for bw in (16, 32, 64) for bx in (16, 32, 64)]
+  for other in ("fixed_s", "fixed_u", "po2_s", "ternary", "binary",
+                "binary01"):
+    for fb in (16, 32):
+      cases.append(((("float", fb), (other, None)), fb))
+      cases.append((((other, None), ("float", fb)), fb))
+  for (w_spec, x_spec), want in cases:
+    pe = PE(repo)
+
+    def operand(spec, tag):
+      kind, bits = spec
+      if kind == "float":
+        return pe.call(pe.lookup_global("FloatingPoint", qi), [],
+                       {"bits": bits})
+      q = ta.make_operand(pe, repo, kind, tag)
+      if kind.startswith("fixed"):
+        q.attrs["bits"], q.attrs["int_bits"] = 40, 3
+      elif kind.startswith("po2"):
+        q.attrs["bits"] = q.attrs["int_bits"] = 6
+      return q
+    cfg = "make_multiplier(%s%s, %s%s)" % (
+        w_spec[0], w_spec[1] or "", x_spec[0], x_spec[1] or "")
+    try:
+      fac = pe.call(pe.lookup_global("MultiplierFactory", mf), [], {})
+      m = pe.call(pe.getattr(fac, "make_multiplier"),
+                  [operand(w_spec, "w"), operand(x_spec, "x")], {})
+    except PyRaise as e:
+      rep.fail("R12", unit, "factory-raises", "%s raises %s" % (cfg, e),
+               loc=loc, instance=cfg)
+      continue
+    n += 1
+    o = m.attrs.get("output")
+    isf = bool(o.attrs.get("is_floating_point"))
+    bits = o.attrs.get("bits")
+    rep.check(isf and bits == want, "R12", unit, "float-product-width",
+              "%s: the product type is %s with %r bits, expected floating "
+              "point with %d bits" % (cfg, "floating point" if isf else
+                                      "not floating point", bits, want),
+              loc=loc, instance=cfg, observed="%s/%r" % (isf, bits))
+  if n < 30:
+    raise AnalysisError("instance-count only %d float products" % n)
+
+
 def run(rep, repo, tier):
   DOM.clear()
   DOM.update(DOM_THOROUGH if tier == "thorough" else DOM_QUICK)
@@ -596,6 +652,8 @@ def run(rep, repo, tier):
   rule_po2_product(rep, repo, tier)
   rule_products_are_independent(rep, repo)
   rep.require_instances("R11", 16)
+  rule_float_products(rep, repo)
+  rep.require_instances("R12", 30)
   rep.require_instances("R10", 200)
   rep.require_instances("R1", 36)
   rep.require_instances("R2", 60)
